@@ -334,6 +334,44 @@ static cJSON *build_from_model(const MVal *m) {
     std::string t = serialize_value(m, r, so);
     return cJSON_Parse(t.c_str());
 }
+// The patch assembled through the constructors, the way a program builds one: member names as constant keys and op / pointer
+// texts as string references, all of it lent read-only (borrowed::). nullptr when the patch is not an array of objects or a
+// text cannot be lent; the caller then falls back to the parsed form.
+static cJSON *build_patch_via_api(const MVal *pm, uint64_t sel) {
+    if (pm->type != T_ARRAY) return nullptr;
+    for (const MVal *op : pm->kids) {
+        if (op->type != T_OBJECT) return nullptr;
+        for (const MVal *k : op->kids) if (k->key.find('\0') != std::string::npos || (k->type == T_STRING && k->str.find('\0') != std::string::npos)) return nullptr;
+    }
+    struct Lent { const char *key; const char *text; };
+    std::vector<std::vector<Lent>> lent(pm->kids.size());
+    bool full = false;
+    borrowed::open();   // phase 1: lend every text; no library call (hence no task switch) until the region is sealed again
+    for (size_t i = 0; i < pm->kids.size(); i++)
+        for (const MVal *k : pm->kids[i]->kids) {
+            Lent l{borrowed::put(k->key), k->type == T_STRING ? borrowed::put(k->str) : nullptr};
+            if (!l.key || (k->type == T_STRING && !l.text)) full = true;
+            lent[i].push_back(l);
+        }
+    borrowed::seal();
+    if (full) return nullptr;
+    cJSON *arr = cJSON_CreateArray();
+    if (!arr) return nullptr;
+    for (size_t i = 0; i < pm->kids.size(); i++) {
+        cJSON *o = cJSON_CreateObject();
+        if (!o || !cJSON_AddItemToArray(arr, o)) { cJSON_Delete(o); cJSON_Delete(arr); return nullptr; }
+        size_t j = 0;
+        for (const MVal *k : pm->kids[i]->kids) {
+            uint64_t bits = mix64(sel, i * 16 + j);
+            cJSON *item = (k->type == T_STRING && (bits & 3) != 0) ? cJSON_CreateStringReference(lent[i][j].text) : build_from_model(k);
+            if (!item) { cJSON_Delete(arr); return nullptr; }
+            cJSON_bool ok = ((bits >> 2) & 3) != 0 ? cJSON_AddItemToObjectCS(o, lent[i][j].key, item) : cJSON_AddItemToObject(o, k->key.c_str(), item);
+            if (!ok) { cJSON_Delete(item); cJSON_Delete(arr); return nullptr; }
+            j++;
+        }
+    }
+    return arr;
+}
 DEFOP(patch_apply) {
     if (!w.pending_patch) { w.noop(st, "no pending patch"); return; }
     int s = w.pending_slot;
@@ -344,7 +382,12 @@ DEFOP(patch_apply) {
     struct Drop { World &w; ~Drop() { w.drop_pending(); } } dp{w};
     w.touch(s);
     w.mark_utils(s);
-    cJSON *patch = build_from_model(w.pending_patch);
+    cJSON *patch = nullptr;
+    if (((uint64_t)st.A(0) / 13) % 3 == 0) {
+        patch = build_patch_via_api(w.pending_patch, (uint64_t)st.A(0));
+        if (patch) w.stats.probes["patch_built_through_constructors_with_lent_texts"]++;
+    }
+    if (!patch) patch = build_from_model(w.pending_patch);
     if (!patch) { w.noop(st, "patch document could not be materialised"); return; }
     struct Del { cJSON *c; ~Del() { cJSON_Delete(c); } } dl{patch};
     // reference evaluation on a copy of the model: once with exact number equality in 'test', once with the library's
